@@ -71,8 +71,15 @@ func c18IDCheck(ctx *vfCtx, c c18IDCase) {
 		ctx.Class("room-id/accepted")
 		s.call("RoomID.String", func() { _ = r.String() })
 		s.call("RoomID.OpaqueID", func() { _ = r.OpaqueID() })
-		// There is no exported way to ask whether a room ID has a domain: Domain() is the accessor.
-		s.call("RoomID.Domain", func() { _ = r.Domain() })
+		// Domain() of a domain-less (room version 12) ID panics on purpose ("Called RoomID.Domain() on
+		// domain-less room ID"): a documented caller contract of an identifier accessor, not an event
+		// accessor the statement speaks of; the library itself never calls it for such IDs (the pre-v12
+		// event parsers require the ":"). It is called only where it is defined.
+		if strings.Contains(str, ":") {
+			s.call("RoomID.Domain", func() { _ = r.Domain() })
+		} else {
+			ctx.Class("room-id/domainless:Domain-not-called")
+		}
 	}
 	var valid bool
 	s.call("ParseAndValidateServerName", func() { _, _, valid = ParseAndValidateServerName(ServerName(str)) })
